@@ -1203,7 +1203,7 @@ val restore_responses_after : n -> response list -> mstate -> mstate
 
 val push_response : response -> mstate -> mstate
 
-val run_responses : n list -> response list -> mstate -> mstate option
+val run_responses : n list -> response list -> mstate -> bool * mstate
 
 val do_accept : mstate -> result
 
